@@ -1,0 +1,21 @@
+//go:build verif
+// +build verif
+
+package ast
+
+// Verification hook H4 (build tag "verif" only). Every ListNode.Variables()
+// call is one logical step of the work that list construction, checking and
+// listing do inside this package (the parsers' own step counters do not see
+// it). Counting is off unless a verification worker switches it on; the
+// worker does so before it makes any call and uses a single goroutine, so the
+// plain counter is not shared. Not part of the public API.
+var (
+	VerifCountListWalks bool
+	VerifListWalks      int64
+)
+
+func verifListWalk() {
+	if VerifCountListWalks {
+		VerifListWalks++
+	}
+}
